@@ -297,10 +297,26 @@ def check_samplers(rep, ws):
                         try:
                             want = {}
                             for o in outs: want = P.padd(want, P.ppow(ctx.rat(o)[0], 2))
-                            if ctx.requal(ctx.rat(c.args[1]), (want, P.pconst(1))): ok = True
+                            if ctx.requal(ctx.rat(c.args[1]), (want, P.pconst(1))):
+                                # ... and of the components as they are *returned* (after the cast to the element type), not of the
+                                # wider values they were rounded from: a point with |r|^2 <= 1 can round to one with |v|^2 > 1
+                                sq = []; seen_ = set(); st_ = [c.args[1]]
+                                while st_:
+                                    x = st_.pop()
+                                    if x.id in seen_: continue
+                                    seen_.add(x.id)
+                                    if x.op == 'fmul': sq.append(x)
+                                    else: st_.extend(x.args)
+                                def strip(z):
+                                    while z.op == 'fpext': z = z.args[0]          # widening is exact
+                                    return z
+                                def is_out(z):
+                                    return any(strip(z) is strip(o_) for o_ in outs)
+                                if all(is_out(m_.args[0]) and is_out(m_.args[1]) for m_ in sq) and len(sq) == len(outs): ok = True
+                                else: bad = 'the acceptance test |v|^2 <= 1 is taken on the values before they are rounded to the element type, not on the vector that is returned'
                         except P.NotPoly:
                             pass
-                if not ok: bad = 'returns without having tested |v|^2 <= 1 on the returned vector'
+                if not ok and not bad: bad = 'returns without having tested |v|^2 <= 1 on the returned vector'
             elif kind == 'hollow':
                 c1 = [c for c, v in lits if c.op == 'fcmp' and c.attr == 'olt' and v is False and c.args[0].op == 'const' and T.const_value(c.args[0]) == 1]
                 c0 = [c for c, v in lits if c.op == 'fcmp' and c.attr == 'oeq' and v is False and any(a.op == 'const' and T.const_value(a) == 0 for a in c.args)]
